@@ -1117,6 +1117,139 @@ func checkHistory(res *lib.Result, c histCase, idx int) {
 	}
 }
 
+// ---- forgery under the substituted key: the unwrap fails, the attacker built the document for 0^32 ----
+
+type zkCase struct {
+	Kind   string      `json:"kind"` // zerokey
+	Seed   uint64      `json:"seed"`
+	Len    int         `json:"plain_len"`
+	Cipher int         `json:"cipher_id"`
+	Key    string      `json:"document_key"` // zero (the public constant Decrypt substitutes) | random
+	Unwrap string      `json:"unwrap"`       // error | short | long | nil | error-with-32-zero-bytes | error-with-32-random-bytes
+	Script encx.Script `json:"script"`
+}
+
+func runZeroKey(res *lib.Result, drv *lib.Drv, real bool, c zkCase, idx int) {
+	if encx.TooStuck() {
+		return
+	}
+	encx.Inflight(c)
+	rng := lib.NewRand(c.Seed)
+	plain := append([]byte("attacker chosen plaintext "), rng.Bytes(c.Len)...)
+	docKey := make([]byte, 32)
+	if c.Key == "random" {
+		docKey = rng.Bytes(32)
+	}
+	np := rng.Bytes(7)
+	manifest := []byte(fmt.Sprintf(`{"k":"victim-key","kw":1,"wfk":"%s","cph":%d,"np":"%s"}`,
+		base64.StdEncoding.EncodeToString(rng.Bytes(40)), c.Cipher, base64.StdEncoding.EncodeToString(np)))
+	doc := encx.IndepEncrypt(docKey, np, manifest, c.Cipher, plain)
+	var ret []byte
+	var rerr error
+	calls := 0
+	unwrap := func(w []byte, alg, kn string, nonce, tag []byte) ([]byte, error) {
+		calls++
+		switch c.Unwrap {
+		case "error":
+			ret, rerr = nil, errors.New("vault: key not found")
+		case "short":
+			ret, rerr = rng.Bytes(16), nil
+		case "long":
+			ret, rerr = make([]byte, 33), nil
+		case "nil":
+			ret, rerr = nil, nil
+		case "error-with-32-zero-bytes":
+			ret, rerr = make([]byte, 32), errors.New("vault: unwrap failed")
+		default:
+			ret, rerr = append([]byte(nil), docKey...), errors.New("vault: unwrap failed")
+		}
+		return ret, rerr
+	}
+	sc := c.Script
+	sc.Data = doc
+	sc.Term = "eof"
+	var released []byte
+	term := ""
+	gerr := encx.Guard(60*time.Second, func() error {
+		r, err := enc.Decrypt(sc.Reader(), enc.DecryptOptions{UnwrapKeyFn: unwrap})
+		if err != nil {
+			term = encx.Canon(err)
+			return nil
+		}
+		var terr error
+		released, terr = encx.Drain(r, nil)
+		term = encx.Canon(terr)
+		return nil
+	})
+	if gerr != nil {
+		term = encx.Canon(gerr)
+	}
+	key, _ := json.Marshal(c)
+	res.Count(string(key), true)
+	res.Hit("zerokey.unwrap=" + c.Unwrap)
+	res.Hit("zerokey.term=" + term)
+	if idx%7 == 0 {
+		res.Sample(c)
+	}
+	if term == "panic" || term == "timeout" {
+		res.Violate("decrypt-"+term, "Decrypt did not return normally on a document built for the substituted key", c)
+		return
+	}
+	// monitor: the unwrap function failed (error, or no 32-byte key) — nothing may be released and the
+	// stream must not end cleanly, whatever the document says
+	failed := rerr != nil || len(ret) != 32
+	if calls > 0 && failed && (term == "ok" || len(released) > 0) {
+		res.Violate("zero-key-forgery", fmt.Sprintf("UnwrapKeyFn failed (%d bytes, err=%v) but Decrypt released %d bytes (%q…) and ended with %s: the document was MACed and sealed under the public all-zero key that Decrypt substitutes",
+			len(ret), rerr, len(released), string(released[:min(len(released), 26)]), term), c)
+	}
+	if real && drv != nil {
+		uerr := "0"
+		if rerr != nil {
+			uerr = "1"
+		}
+		fk := "none"
+		if calls > 0 {
+			fk = encx.Hex(ret)
+			if len(ret) == 0 {
+				fk = "empty"
+			}
+		}
+		ans, err := drv.Ask(fmt.Sprintf("dec fk=%s uerr=%s keyname= %s", fk, uerr, sc.Line("data")))
+		if err != nil {
+			res.Disagree("driver-alive", c, err.Error(), "")
+			return
+		}
+		kv := encx.KV(ans)
+		if kv["unmodelled"] != "" {
+			res.Hit("lean=unmodelled:" + kv["unmodelled"])
+			return
+		}
+		res.Traces++
+		if kv["term"] != term || kv["out"] != encx.Hex(released) {
+			res.Disagree("Decrypt(real) = Kit.Enc.decryptImpl when UnwrapKeyFn fails", c,
+				fmt.Sprintf("term=%s released=%d bytes", kv["term"], len(kv["out"])/2), fmt.Sprintf("term=%s released=%d bytes", term, len(released)))
+		}
+	}
+}
+
+func genZeroKey(tier string, rng *lib.Rand) []zkCase {
+	var cases []zkCase
+	for _, key := range []string{"zero", "random"} {
+		for _, u := range []string{"error", "short", "long", "nil", "error-with-32-zero-bytes", "error-with-32-document-key"} {
+			for _, n := range []int{0, 3, 70000} {
+				for cph := 1; cph <= 2; cph++ {
+					if tier == "quick" && n == 70000 && cph == 2 && key == "random" {
+						continue
+					}
+					cases = append(cases, zkCase{Kind: "zerokey", Seed: rng.U64(), Len: n, Cipher: cph, Key: key, Unwrap: u,
+						Script: encx.RandomScript(rng, n+300, SS)})
+				}
+			}
+		}
+	}
+	return cases
+}
+
 func main() {
 	f := lib.ParseFlags()
 	encx.Supervise(f.Out, rule, func() { run(f) })
@@ -1157,6 +1290,10 @@ func run(f lib.Flags) {
 		json.Unmarshal(rf.Case, &kind)
 		if kind.Kind == "toy" {
 			encx.RunLoop("c02", f, res)
+		} else if kind.Kind == "zerokey" {
+			var c zkCase
+			json.Unmarshal(rf.Case, &c)
+			runZeroKey(res, drv, real, c, 1)
 		} else if kind.Kind == "history" {
 			var c histCase
 			json.Unmarshal(rf.Case, &c)
@@ -1179,6 +1316,9 @@ func run(f lib.Flags) {
 	cases := gen(f.Tier, rng.Fork(), f.Search)
 	for i, c := range cases {
 		runCase(res, drv, real, c, i)
+	}
+	for i, c := range genZeroKey(f.Tier, rng.Fork()) {
+		runZeroKey(res, drv, real, c, i)
 	}
 	for i, c := range genHistory(f.Tier, rng.Fork(), f.Search) {
 		checkHistory(res, c, i)
